@@ -6,6 +6,7 @@ package schedulerplugin
 import (
 	corev1 "k8s.io/api/core/v1"
 	"tkestack.io/galaxy/pkg/ipam/cloudprovider"
+	"tkestack.io/galaxy/pkg/ipam/floatingip"
 	"tkestack.io/galaxy/pkg/ipam/schedulerplugin/util"
 )
 
@@ -50,4 +51,10 @@ func (p *FloatingIPPlugin) VerifReloadConfigMap() (bool, error) {
 // VerifAppReplicas returns the plugin's view of the parent app of the given key.
 func (p *FloatingIPPlugin) VerifAppReplicas(keyObj *util.KeyObj) (bool, int32, error) {
 	return p.checkAppAndReplicas(keyObj)
+}
+
+// VerifWrapIPAM replaces the plugin's IPAM by wrap(current IPAM), e.g. a delegating wrapper which lets the harness
+// observe or delay the plugin's IPAM calls.
+func (p *FloatingIPPlugin) VerifWrapIPAM(wrap func(floatingip.IPAM) floatingip.IPAM) {
+	p.ipam = wrap(p.ipam)
 }
